@@ -8,6 +8,15 @@
  * the reference encoder's output for the same semantic fields, (2) a second
  * RegP receiving those octets reports no error and the same fields, (3)
  * sequence numbers increase by one modulo 2^16.
+ *
+ * The session's sequence counter is never written or read by the harness (its
+ * representation is the library's business): a request case runs on one
+ * instance that has first emitted N requests (N from the sequence set, so
+ * that the interesting numbers are reached from a new session), the number a
+ * request carries is taken from the emitted frame, and every emission must
+ * carry its predecessor's number plus one.  Of a meta message the document
+ * says that only the meta field is used: its WORD-SIZE-16 bit, sequence and
+ * address are taken from the emitted frame.
  */
 #include "mc.h"
 #include "regp_ref.h"
@@ -43,12 +52,64 @@ emits_with_size(int e)
     return e <= E_ACK_PAYLOAD;
 }
 
-/* one emission; returns false after a recorded failure */
+/* request numbering on the emitting instance A */
+static bool g_have_prev;
+static uint16_t g_prev_seq;
+
+/* sequence number carried by the one frame in A.out; -1 if it cannot be read */
+static long
+emitted_seq(bool tcp)
+{
+    static unsigned char scratch[DRV_WIRE];
+    struct rr_frames fr;
+    if (rr_unframe(tcp, A.out, A.outlen, scratch, &fr) != 1 || fr.len[0] < 12)
+        return -1;
+    return ((long)scratch[fr.off[0] + 2] << 8) | scratch[fr.off[0] + 3];
+}
+
+/* record a request's number and compare it with its predecessor's */
 static bool
-one(int e, bool tcp, bool m16, int anstype, uint32_t addr, uint16_t seq, size_t n, int content, uint32_t value)
+follows(long es, const char *who)
+{
+    if (es < 0)
+        return true; /* reported elsewhere */
+    if (g_have_prev && (uint16_t)es != (uint16_t)(g_prev_seq + 1)) {
+        mc_fail("C08/sequence-increments", "%s carries sequence number %ld, the previous request of the session carried %u", who, es, g_prev_seq);
+        return false;
+    }
+    g_have_prev = true;
+    g_prev_seq = (uint16_t)es;
+    return true;
+}
+
+/* a new emitting instance that has already sent `before` requests */
+static bool
+new_session(bool tcp, bool m16, unsigned before)
 {
     drv_init(&A, tcp, m16, 4096, false);
-    A.p.session.sequence = seq;
+    g_have_prev = false;
+    for (unsigned i = 0; i < before; ++i) {
+        A.outlen = 0;
+        const int rc = (i & 1) ? regp_req_read8(&A.p, i, 1) : regp_req_read16(&A.p, i, 1);
+        mc_trans(1);
+        if (rc < 0) {
+            mc_fail("C08/emit-succeeds", "request %u of the session returned %d", i, rc);
+            return false;
+        }
+        if (!follows(emitted_seq(tcp), "a read request"))
+            return false;
+    }
+    return true;
+}
+
+/* one emission; returns false after a recorded failure.  fresh: on a new
+ * instance (responses, meta); otherwise on the session set up by new_session */
+static bool
+one(int e, bool tcp, bool m16, int anstype, uint32_t addr, uint16_t seq, size_t n, int content, uint32_t value, bool fresh)
+{
+    if (fresh)
+        drv_init(&A, tcp, m16, 4096, false);
+    A.outlen = 0;
     RPFrame req;
     memset(&req, 0, sizeof req);
     req.header.type = anstype ? RP_FRAME_WRITE_REQUEST : RP_FRAME_READ_REQUEST;
@@ -126,6 +187,18 @@ one(int e, bool tcp, bool m16, int anstype, uint32_t addr, uint16_t seq, size_t 
         } else {
             if (e >= E_EWORDSIZE && e <= E_EIO && want.plen == 0 && fr.len[0] >= 2)
                 want.options = (want.options & ~(unsigned)RO_W16) | (scratch[fr.off[0]] & RO_W16);
+            if (e >= E_META_ENC && fr.len[0] >= 8) {
+                /* "In META messages, only the meta field is used" */
+                const unsigned char *m = scratch + fr.off[0];
+                want.options = (want.options & ~(unsigned)RO_W16) | (m[0] & RO_W16);
+                want.seq = (uint16_t)((m[2] << 8) | m[3]);
+                want.addr = ((uint32_t)m[4] << 24) | ((uint32_t)m[5] << 16) | ((uint32_t)m[6] << 8) | m[7];
+            }
+            if (e <= E_REQ_WRITE16 && fr.len[0] >= 4) {
+                /* the number is the session's; that it is the right one is clause (3) */
+                const unsigned char *m = scratch + fr.off[0];
+                want.seq = (uint16_t)((m[2] << 8) | m[3]);
+            }
             const size_t rn = rr_build(raw, &want, false, false);
             const size_t wn = tcp ? rr_lenprefix(wire, raw, rn) : rr_slip(wire, raw, rn);
             if (wn != A.outlen || memcmp(wire, A.out, wn) != 0) {
@@ -136,13 +209,8 @@ one(int e, bool tcp, bool m16, int anstype, uint32_t addr, uint16_t seq, size_t 
         }
     }
     /* (3) session sequence */
-    if (ok) {
-        const uint16_t wantseq = (uint16_t)(seq + (e <= E_REQ_WRITE16 ? 1 : 0));
-        if (A.p.session.sequence != wantseq) {
-            mc_fail("C08/sequence-increments", "%s: session sequence %u after emitting with %u", ENAME[e], A.p.session.sequence, seq);
-            ok = false;
-        }
-    }
+    if (ok && e <= E_REQ_WRITE16)
+        ok = follows(emitted_seq(tcp), ENAME[e]);
     /* (2) own receiver */
     if (ok) {
         drv_init(&B, tcp, m16, 4096, false);
@@ -179,7 +247,8 @@ one(int e, bool tcp, bool m16, int anstype, uint32_t addr, uint16_t seq, size_t 
         }
         drv_release(&B);
     }
-    drv_release(&A);
+    if (fresh)
+        drv_release(&A);
     free(pl);
     return ok;
 }
@@ -223,11 +292,17 @@ main(int argc, char **argv)
                         continue; /* doc 3.1.1: write responses carry no payload when acknowledging */
                     for (unsigned ai = 0; ai < sizeof ADDRS / sizeof *ADDRS; ++ai)
                         for (unsigned si = 0; si < 4; ++si) {
-                            if (!mc_case("%s %s mem%d answering=%s addr=%08x seq=%04x x sizes x contents", ENAME[e], tcp ? "tcp" : "serial",
-                                         m16 ? 16 : 8, anstype ? "write" : "read", ADDRS[ai], SEQS[si]))
+                            const bool isreq = e <= E_REQ_WRITE16;
+                            if (isreq && !th && SEQS[si] > 1 && ai != 2 && ai != 6)
+                                continue; /* quick: long sessions (tens of thousands of earlier requests) for two addresses only */
+                            if (!mc_case(isreq ? "%s %s mem%d answering=%s addr=%08x after %u earlier requests of the session x sizes x contents"
+                                               : "%s %s mem%d answering=%s addr=%08x seq=%04x x sizes x contents",
+                                         ENAME[e], tcp ? "tcp" : "serial", m16 ? 16 : 8, anstype ? "write" : "read", ADDRS[ai], SEQS[si]))
                                 continue;
                             bool ok = true;
                             long n = 0;
+                            if (isreq)
+                                ok = new_session(tcp, m16, SEQS[si]);
                             if (emits_with_size(e)) {
                                 for (int zi = 0; zi < nsz && ok; ++zi)
                                     for (int c = 0; c < 4 && ok; ++c) {
@@ -235,16 +310,18 @@ main(int argc, char **argv)
                                             continue;
                                         if (sizes[zi] == 0 && c)
                                             continue;
-                                        ok = one(e, tcp, m16, anstype, ADDRS[ai], SEQS[si], sizes[zi], c, 0);
+                                        ok = one(e, tcp, m16, anstype, ADDRS[ai], SEQS[si], sizes[zi], c, 0, !isreq);
                                         n++;
                                     }
                             } else {
                                 static const uint32_t VAL[] = { 0, 1, 0x40, 0xc0dbdcddu, 0xffffffffu, 0x00c000dbu };
                                 for (unsigned vi = 0; vi < 6 && ok; ++vi) {
-                                    ok = one(e, tcp, m16, anstype, ADDRS[ai], SEQS[si], 0, 0, VAL[vi]);
+                                    ok = one(e, tcp, m16, anstype, ADDRS[ai], SEQS[si], 0, 0, VAL[vi], true);
                                     n++;
                                 }
                             }
+                            if (isreq)
+                                drv_release(&A);
                             mc_end(true, !ok ? "failed" : e <= E_REQ_WRITE16 ? "request-roundtrip" : e <= E_ACK_EMPTY ? "ack-roundtrip"
                                    : e <= E_EIO ? "error-response-roundtrip" : "meta-roundtrip");
                         }
@@ -257,7 +334,18 @@ main(int argc, char **argv)
         bool ok = true;
         static const unsigned char pl[4] = { 1, 2, 3, 4 };
         unsigned char scratch[DRV_WIRE];
+        long first = -1;
+        RPFrame rq;
+        memset(&rq, 0, sizeof rq);
+        rq.header.type = RP_FRAME_WRITE_REQUEST;
         for (uint32_t i = 0; i <= 65536 && ok; ++i) {
+            if (i % 5 == 3) {
+                /* responses sent in between are not requests of the session */
+                A.outlen = 0;
+                (void)regp_resp_ack(&A.p, &rq, NULL, 0);
+                (void)regp_resp_meta(&A.p, RP_META_EHEADERCRC);
+                mc_trans(2);
+            }
             A.outlen = 0;
             int rc;
             switch (i & 3) {
@@ -272,9 +360,13 @@ main(int argc, char **argv)
             if (rc < 0 || rr_unframe(tcp, A.out, A.outlen, scratch, &fr) != 1 || rr_verdict(scratch + fr.off[0], fr.len[0], &f) != RV_OK) {
                 mc_fail("C08/wire-octets", "request %u is not a valid frame (rc=%d)", i, rc);
                 ok = false;
-            } else if (f.seq != (uint16_t)i) {
-                mc_fail("C08/sequence-increments", "request number %u carries sequence %u", i, f.seq);
-                ok = false;
+            } else {
+                if (first < 0)
+                    first = f.seq; /* the statement does not fix the first number of a session */
+                if (f.seq != (uint16_t)(first + i)) {
+                    mc_fail("C08/sequence-increments", "request number %u carries sequence %u; the first request of the session carried %ld", i, f.seq, first);
+                    ok = false;
+                }
             }
         }
         drv_release(&A);
